@@ -87,7 +87,7 @@ def classify(cfg):
 
 
 def make_context(tier, seed):
-    return S.make_context(tier, seed)
+    return S.make_context(tier, seed, ["finalize", "invariant"])
 
 
 def first_next_outcome(cfg):
